@@ -5,6 +5,74 @@ produced by tools/matrix.sh)."""
 import json, os
 
 M = {
+ "C01C": ("C01", "src/move_generation.rs: contact-check pre-filter (find_contact_checker) returns before the en passant section; 'behind the pawn' computed with the black offset for a white checker",
+          "black to move, in check from the white pawn that just double-stepped, with a black pawn beside it: the only legal reply (en passant) is not generated"),
+ "C01D": ("C01", "src/move_generation.rs: en passant generated once per position; black arm uses `if .. else if` over the two neighbouring capturers",
+          "black pawns on both sides of the white pawn that just double-stepped: only one of the two en passant captures is generated"),
+ "C02C": ("C02", "src/move_generation.rs: promotion handling moved before the rook-captured bookkeeping and ends with `continue`",
+          "a pawn promotes by capturing an unmoved rook on its corner while the opponent still holds that right"),
+ "C02D": ("C02", "src/board.rs new capture_en_passant helper never clears the en passant square",
+          "any generated en passant capture: the successor keeps the parent's en passant target"),
+ "C03C": ("C03", "src/uci.rs make_move: unset_pawn_double_move moved into the pawn branch",
+          "`position ... moves` with a double push answered by two non-pawn moves while a pawn stands beside the pushed pawn: engine answers a stale en passant capture"),
+ "C03D": ("C03", "src/engine.rs get_best_move: early `return` after the root loop when out of time skips the only place the fallback move is sent",
+          "exactly one legal move and the clock expiring during that move's depth-1 search (virtual-clock expiry 1 or 2): bestmove 0000 on a live position"),
+ "C04C": ("C04", "src/uci.rs send_best_move_to_gui: promotion letter only when target row == BOARD_START || BOARD_END (off by one for black)",
+          "the engine itself chooses a promotion as Black: bestmove a2a1 without letter"),
+ "C04D": ("C04", "src/board.rs take_away_all_castling_rights helper XORs both constants when only one right is left; used by the generator, not by the text applier",
+          "a side loses exactly one right, then its king moves or castles: generated successor's key differs from the replayed one"),
+ "C05C": ("C05", "src/board.rs take_away_castling_rights_for_color (both constants XORed when one right is left), used in the generator's king branch",
+          "a side holding exactly one right makes a plain king move along generated successors"),
+ "C05D": ("C05", "src/move_generation.rs promote_pawn: one scratch board, promotion piece XORed in per iteration and never out",
+          "any generated knight / bishop / rook promotion"),
+ "C07C": ("C07", "src/engine.rs alpha_beta_search: repetition bookkeeping wrapped in `if track_repetition` except the checkmate/stalemate block, which still removes",
+          "null-move child that is stalemated (rare geometry, expiry horizon 20k-150k consultations): count underflows / record not restored"),
+ "C07D": ("C07", "src/engine.rs get_best_move: loop-head clock check before the first sort, fallback `moves.first()` behind the loop",
+          "expiry at exactly k = 0 on a position whose first generated move is not first in the ordering"),
+ "C08C": ("C08", "src/engine.rs get_best_move: alpha/best_move recorded before the clock test, send skipped",
+          "clock expiring inside the depth-1 search of the first root move (expiry 1 or 2): nothing is sent, bestmove 0000 on a live position"),
+ "C08D": ("C08", "src/uci.rs find_and_play_best_move: zero-slice shortcut play_first_move returns without answering when there is no move",
+          "finished game (mate/stalemate) together with a zero slice: go is never answered"),
+ "C09C": ("C09", "src/time_control.rs: increment fallback fires when the rounded slice is 0 instead of when the clock is inside the margin",
+          "mover's clock just above the margin (101-118 ms without movestogo) with a positive increment"),
+ "C09D": ("C09", "src/uci.rs: time budget computed in the go arm from a cached engine_color refreshed only by position",
+          "a go following another go without a position in between, with asymmetric clocks"),
+ "C10C": ("C10", "src/engine.rs alpha_beta_search: repetition probe only when board.order_heuristic == 0",
+          "the repeating move is the previous iteration's best move / a killer (order_heuristic overwritten): scores 0 on odd depths, losing score on even depths"),
+ "C10D": ("C10", "src/draw_table.rs add_board_to_draw_table: count clamped to MAX_OCCURRENCES = 3",
+          "a history in which some position occurs four or more times"),
+ "C11C": ("C11", "src/evaluation.rs is_insufficient_material (one minor per side counts as insufficient), used in the draw test of alpha_beta_search",
+          "K+minor v K+minor with a mate in one on the board"),
+ "C11D": ("C11", "src/engine.rs get_best_move: return at the first forced mate found",
+          "a mate in one plus an earlier-ordered check / cross-check line that mates in two, proven in iteration 1 through check extensions"),
+ "C12C": ("C12", "src/engine.rs alpha_beta_search: repetition probe gated on board.order_heuristic == 0",
+          "history with a twice-seen position reachable by a quiet move that is the previous pv or a killer"),
+ "C12D": ("C12", "src/engine.rs get_best_move: root position added to the repetition record a second time",
+          "perpetual-check geometry: a ply-4 return to the root through check extensions at depth <= 3"),
+ "C13C": ("C13", "src/move_generation.rs: capture-only mode runs the king-safety test only for the king or pieces on a line with it",
+          "a capture chain of length >= 2: a capture gives check and a non-king piece not on a line with its king 'answers' with an unrelated capture"),
+ "C13D": ("C13", "src/move_generation.rs: promotion branches merged into an early `continue` before the en passant bookkeeping, unset removed from promote_pawn",
+          "a promotion while an en passant target is set: the successor keeps the stale target (and key)"),
+ "C14C": ("C14", "src/evaluation.rs: MAX_EVALUATION clamp returns the unsigned constant",
+          "true score beyond 10000 cp (nine queens v bare king): negation under side-to-move flip lost"),
+ "C14D": ("C14", "src/evaluation.rs: king table looked up at the cached king squares instead of during the scan",
+          "illegal placements with two kings of one colour (outside C14's one-king-each... but inside 'any placement')"),
+ "C15C": ("C15", "src/board.rs from_fen digit branch: slice fill before the bounds check",
+          "a rank that overshoots the board by three or more squares through a digit"),
+ "C15D": ("C15", "src/utils.rs trim_newline rewritten on raw bytes with an unguarded bytes[end-1]",
+          "the input is exactly the one-character string \"\\n\""),
+ "C16C": ("C16", "src/uci.rs + src/engine.rs: early answer on a forced reply leaves the old search thread printing",
+          "a timed go on a single-legal-move position immediately followed by another position + go"),
+ "C16D": ("C16", "src/engine.rs: process-wide EXPECTED_LINE ordering hint survives between searches",
+          "the probed position is exactly P + pv[0] + pv[1] of the previous timed search's last improvement"),
+ "C17C": ("C17", "src/utils.rs clean_input: final trim replaced by an unconditional pop()",
+          "end of input in the middle of a line (no trailing newline): the last character of the last command is eaten"),
+ "C17D": ("C17", "src/uci.rs play_game_uci: match on commands[0] replaced by starts_with chain",
+          "an unknown line whose first word has a command name as a proper prefix (gobble, positional, quitting)"),
+ "C18C": ("C18", "src/search.rs + src/engine.rs: stopped flag lost in the null-move probe's scratch copy of the search info",
+          "clock expiring exactly on entry of the null-move probe under the first root move at depth >= 4: `score mate 0`"),
+ "C18D": ("C18", "src/engine.rs + src/uci.rs: forced-move shortcut prints an info line with an empty pv",
+          "a root position with exactly one legal move"),
  "C01A": ("C01", "src/move_generation.rs is_check_cords: enemy-king test rewritten as an offset table with one direction duplicated and one missing",
           "enemy king diagonally one rank below and one file left of the probed square (e.g. king walk next to the king; black castling onto a square the white king attacks); visible at depth 1 from a FEN"),
  "C01B": ("C01", "src/move_generation.rs generate_moves_for_piece: rook-moved and rook-captured right bookkeeping merged into one else-if chain",
@@ -122,7 +190,7 @@ for mid, (prop, change, needs) in M.items():
     if not os.path.isdir(d):
         continue
     meta = {"id": mid, "breaks_property": prop, "change": change, "needs_to_manifest": needs,
-            "origin": "written by an independent sub-agent that was given only the property text and a scratch worktree of /repo (nothing from /verif)",
+            "origin": ("round 2: " if mid[-1] in "CD" else "round 1: ") + "written by an independent sub-agent that was given only the property text and a scratch worktree of /repo (nothing from /verif)" + ("; round 2 agents also got the list of round-1 ideas to avoid, and started from the tree with all repairs" if mid[-1] in "CD" else ""),
             "files": {"patch": "patch.diff", "demonstration": sorted(f for f in os.listdir(d) if f.startswith("demo")), "author_notes": "notes.md"}}
     cj = os.path.join(d, "confirm.json")
     if os.path.exists(cj):
